@@ -107,6 +107,13 @@ def _enclosing_file(node: ast.AST, var: str, env: dict[str, ast.expr]) -> tuple[
             for item in cur.items:
                 if isinstance(item.optional_vars, ast.Name) and item.optional_vars.id == var and isinstance(item.context_expr, ast.Call):
                     c = item.context_expr
+                    # `with contextlib.closing(<opener>) as f` / `closing(name bound once to an opener)`: the file is the opener's
+                    if (dotted(c.func) or "").split(".")[-1] == "closing" and len(c.args) == 1:
+                        inner = c.args[0]
+                        if isinstance(inner, ast.Name) and isinstance(env.get(inner.id), ast.Call):
+                            inner = env[inner.id]
+                        if isinstance(inner, ast.Call):
+                            c = inner
                     if isinstance(c.func, ast.Attribute) and c.func.attr == "open":
                         file = path_file(c.func.value, env)
                         mode = kwarg(c, "mode", 0)
@@ -199,6 +206,8 @@ class Plumbing:
                 continue
             q = self.prog.qualify(f.module, dotted(n.func) or "")
             cond = " and ".join(x for x in (outer_cond, _guards(n, f.node)) if x)
+            if q in ("json.dump", "pickle.dump") and not (len(n.args) >= 2 and isinstance(n.args[1], ast.Name) and _enclosing_file(n, n.args[1].id, env)) and f is self.save:
+                raise AnalysisError(f"{f.loc(n)}: cannot resolve which file `{src(n)[:60]}` writes to; the file effects of save cannot be read")
             if q in ("json.dump", "pickle.dump") and len(n.args) >= 2 and isinstance(n.args[1], ast.Name) and _enclosing_file(n, n.args[1].id, env):
                 file, mode, stmt = _enclosing_file(n, n.args[1].id, env)  # type: ignore[misc]
                 effects.append(FileEffect(0, file, q, mode, n, n.args[0], cond))
@@ -584,6 +593,11 @@ class Plumbing:
             if tgt is None or not is_self_attr(tgt, f.self_name):
                 continue
             attr = tgt.attr  # type: ignore[union-attr]
+            if isinstance(val, ast.Name):
+                # `x = Cls(a, b)` ... `self.X = x`: the object built a few lines above
+                env_ = single_assignment_env(f.node)
+                if isinstance(env_.get(val.id), ast.Call):
+                    val = env_[val.id]
             leaves = dep_leaves(prog, f, val)
             for p in out:
                 if f"param:{p}" in leaves:
@@ -591,6 +605,10 @@ class Plumbing:
             # one level into a constructed repository object: self.X = Cls(a, b) -> X.<getter>
             if isinstance(val, ast.Call):
                 c = prog.class_of_name(f.module, dotted(val.func) or "")
+                new_helpers = set((getattr(prog, "alignment", None) or {}).get("new_helpers", []))
+                if c is None and any(isinstance(t_, FuncInfo) and t_.qualname in new_helpers for t_ in prog.resolve_call(f, val)) and any(f"param:{p}" in leaves for p in out):
+                    raise AnalysisError(f"{f.loc(val)}: constructor parameters reach `self.{attr}` through the helper `{src(val.func)[:40]}`, which could not be read in place; "
+                                        "which attribute paths they determine cannot be read")
                 if c is not None and "__init__" in c.methods:
                     ci = c.methods["__init__"]
                     if any(isinstance(a, ast.Starred) for a in val.args) or any(k.arg is None for k in val.keywords):
